@@ -217,7 +217,11 @@ class Env:
             ctr = env.rand; env.rand += 1
             if n < 0:
                 raise ValueError('negative argument not allowed')
-            return bytes((ctr * 31 + j * 7 + 13) % 256 for j in range(n))
+            if n > (1 << 26):
+                # the real token_bytes would try to allocate n bytes; the harness does not follow it there
+                raise MemoryError(f'token_bytes({n}) requested by the script (harness cap 64 MiB)')
+            base = bytes((ctr * 31 + j * 7 + 13) % 256 for j in range(256))     # the stream has period 256 in j
+            return (base * (n // 256 + 1))[:n]
         F.token_bytes = token_bytes
         return self
     def __exit__(self, *a):
